@@ -1135,6 +1135,13 @@ impl PeerConnection {
         stream_id: String,
         params: RtpCodecParameters,
     ) -> RtcResult<Arc<RtpSender>> {
+        // close() has stopped every sender and receiver loop: a sender wired to the
+        // old transport now would start a send loop that nothing stops any more.
+        if *self.inner.signaling_state.borrow() == SignalingState::Closed {
+            return Err(RtcError::InvalidState(
+                "cannot add a track to a closed connection".into(),
+            ));
+        }
         let kind = match track.kind() {
             crate::media::frame::MediaKind::Audio => MediaKind::Audio,
             crate::media::frame::MediaKind::Video => MediaKind::Video,
